@@ -52,6 +52,21 @@ func splitRefs(n M) {
 	case "obj":
 		for _, m := range n["m"].([]M) {
 			v := m["v"].(M)
+			// the targets of a discriminator mapping are references too (schema names or URI references):
+			// each becomes {"$ref": <target>} so that the specification's AllRefs / RefOK see them
+			if m["k"] == "mapping" && v["t"] == "obj" {
+				for _, mm := range v["m"].([]M) {
+					if tv := mm["v"].(M); tv["t"] == "str" {
+						raw := tv["v"].(string)
+						segs := []string{}
+						if strings.HasPrefix(raw, "#/") {
+							segs = strings.Split(strings.TrimPrefix(raw, "#/"), "/")
+						}
+						mm["v"] = M{"t": "obj", "m": []M{{"k": "$ref", "v": M{"t": "ref", "path": segs, "raw": raw}}}}
+					}
+				}
+				continue
+			}
 			if m["k"] == "$ref" && v["t"] == "str" {
 				raw := v["v"].(string)
 				segs := []string{}
